@@ -40,6 +40,55 @@ class TemplateError(Exception):
     pass
 
 
+# pyval(text): the object a Python expression text evaluates to in the DSL namespace (uninterpreted; the only facts
+# about it are the ones below, each a statement about Python's grammar / the induction hypothesis)
+pyval = z3.Function("pyval", M.S, Obj)
+
+
+def _lit(p: Any) -> Optional[str]:
+    if z3.is_string_value(p):
+        return p.as_string().replace("\\u{a}", "\n")
+    return None
+
+
+def is_ws(p: Any) -> bool:
+    """a part that is whitespace only: a literal, or ' ' * n"""
+    t = _lit(p)
+    if t is not None:
+        return t.strip(" \n\t") == ""
+    if z3.is_app(p) and p.decl().name() == "srep":
+        t = _lit(p.arg(0))
+        return t is not None and t.strip(" \t") == ""
+    return False
+
+
+def _pyval_axioms(ct) -> List[Any]:
+    m, k = z3.Consts("pv_m pv_k", Obj)
+    i = z3.Int("pv_i")
+    return [pyval(z3.StringVal("...")) == M.EllV,
+            # induction hypothesis (trusted, as for typed lists): the text printed for a member evaluates to that member
+            z3.ForAll([m, i, k], pyval(rtext(m, i, k)) == m, patterns=[rtext(m, i, k)])]
+
+
+def _concat_hook(ex, st, z, parts) -> None:
+    """whitespace around an expression does not change what it evaluates to (inside brackets; eval() also strips
+    leading blanks): a concatenation whose only non-blank part is one printed expression evaluates to that part's value"""
+    core = [p for p in parts if not is_ws(p)]
+    if not core or len(core) == len(parts):
+        return
+    if len(core) == 1 and _lit(core[0]) is None:
+        st.assume(pyval(z) == pyval(core[0]))
+    elif all(_lit(p) is not None for p in core) and "".join(_lit(p) for p in core).strip() == "...":
+        st.assume(pyval(z) == M.EllV)
+
+
+from pyvc.contracts import REG as _REGR  # noqa: E402
+_REGR.axiom_fns.append(_pyval_axioms)
+if not hasattr(_REGR, "concat_hooks"):
+    _REGR.concat_hooks = []
+_REGR.concat_hooks.append(_concat_hook)
+
+
 def flat(z: Any) -> List[Any]:
     if z3.is_app(z) and z.decl().kind() == z3.Z3_OP_SEQ_CONCAT:
         out: List[Any] = []
@@ -49,14 +98,16 @@ def flat(z: Any) -> List[Any]:
     return [z]
 
 
-def template_of(r: Any) -> Tuple[str, Dict[str, Any]]:
-    """(python source with placeholders, placeholder -> z3 value term it evaluates to)"""
+def template_of(r: Any, blank: str = " ") -> Tuple[str, Dict[str, Any]]:
+    """(python source with placeholders, placeholder -> z3 value term it evaluates to).
+    `' ' * n` is rendered as `blank`; `sep.join(texts)` with a separator that is a comma between blanks is rendered
+    as the starred placeholder `*__hN__` (a sequence of expressions, one per text, separated by commas)."""
     z = z3.simplify(M.sval(r))
     holes: Dict[str, Any] = {}
     src = ""
     for part in flat(z):
         if z3.is_string_value(part):
-            src += part.as_string().replace("\\u{a}", "\n")
+            src += _lit(part)
             continue
         name = f"__h{len(holes)}__"
         d = part.decl().name() if z3.is_app(part) else ""
@@ -64,6 +115,16 @@ def template_of(r: Any) -> Tuple[str, Dict[str, Any]]:
             holes[name] = ("value", part.arg(0))
         elif d == "rtext":
             holes[name] = ("member", part.arg(0))
+        elif d == "srep" and is_ws(part):
+            src += blank
+            continue
+        elif d == "joined":
+            sep = _lit(part.arg(0))
+            if sep is None or sep.strip(" \n\t") != ",":
+                raise TemplateError(f"join with a separator that is not a comma between blanks: {part.arg(0)}")
+            holes[name] = ("seq", part.arg(1))
+            src += "*" + name
+            continue
         else:
             raise TemplateError(f"text fragment that is neither a literal nor repr(prop): {part}")
         src += name
@@ -114,6 +175,17 @@ def arg_value(a: ast.expr, holes: Dict[str, Any]) -> Any:
         lit = M.fresh("emptylist")                      # the value of the literal []
         LITERAL_FACTS.append(lambda ct, lit=lit: z3.And(M.is_Ref(lit), M.rcls(lit) == ct.id("list"), M.llen(lit) == 0))
         return lit
+    if isinstance(a, ast.List) and len(a.elts) == 1 and isinstance(a.elts[0], ast.Starred) and \
+            isinstance(a.elts[0].value, ast.Name) and holes.get(a.elts[0].value.id, ("",))[0] == "seq":
+        # [ *texts ]: the list display whose items are the printed expressions, in order
+        L = holes[a.elts[0].value.id][1]
+        lit = M.fresh("listdisplay")
+        j = z3.Int("ldj")
+        LITERAL_FACTS.append(lambda ct, lit=lit, L=L: z3.And(
+            M.is_Ref(lit), M.rcls(lit) == ct.id("list"), M.llen(lit) == M.llen(L),
+            z3.ForAll([j], z3.Implies(z3.And(0 <= j, j < M.llen(L)), M.lat(lit, j) == pyval(M.sval(M.lat(L, j)))),
+                      patterns=[M.lat(lit, j)])))
+        return lit
     raise TemplateError(f"argument {ast.dump(a)} is neither a printed prop nor `...`")
 
 
@@ -126,6 +198,9 @@ def rebuilds(ct, cls: str, Sx: Any, r: Any) -> Any:
     try:
         src, holes = template_of(r)
         tree = ast.parse(src, mode="eval")
+        # an indentation of zero blanks must not change the reading
+        if ast.dump(ast.parse(template_of(r, blank="")[0], mode="eval")) != ast.dump(tree):
+            raise TemplateError("the text reads differently when an indentation is empty")
         cls2, view, conds = eval_chain(ct, tree.body, holes)
     except (TemplateError, SyntaxError) as e:
         b = z3.Bool("template_error: " + str(e)[:160])
@@ -137,7 +212,11 @@ def rebuilds(ct, cls: str, Sx: Any, r: Any) -> Any:
         if n == "elements":      # lists are compared by content
             a_, b_ = view[n], S.prop(Sx, n)
             islist = M.isinstance_f(ct, b_, "list")
-            same.append(z3.If(islist, z3.And(a_ != M.NilV, M.llen(a_) == M.llen(b_), M.llen(b_) == 0), a_ == b_))
+            ej = z3.Int("sej")
+            same.append(z3.If(islist, z3.And(
+                a_ != M.NilV, M.llen(a_) == M.llen(b_),
+                z3.ForAll([ej], z3.Implies(z3.And(0 <= ej, ej < M.llen(b_)), M.lat(a_, ej) == M.lat(b_, ej)),
+                          patterns=[M.lat(b_, ej)])), a_ == b_))
         else:
             same.append(view[n] == S.prop(Sx, n))
     lits = [f(ct) for f in LITERAL_FACTS]
@@ -179,10 +258,6 @@ def rep_visit_list(c):
     for f in S.reach_def(ct, "ListSchema", Sx):
         c.requires(f)
     c.requires(M.is_intlike(ind), "indent-int")
-    # domain of this contract: no element list, or the empty one (the rendering of non-empty element lists
-    # goes through a loop and a join of member texts: not yet under contract)
-    E = S.prop(Sx, "elements")
-    c.requires(z3.Or(z3.Not(S.declared(Sx, "elements")), M.llen(E) == 0), "no-element-list")
     c.raises(props=("C06",))
     c.returns("str")
     c.ensures("text-rebuilds-the-schema", lambda r, post: rebuilds(ct, "ListSchema", Sx, r), ("C06",))
@@ -195,5 +270,13 @@ contract(REP, "Representor.visit_list", props=("C06", "C07"), group="representor
 
 @invariant(REP, "Representor.visit_list", loop=0)
 def _inv_rep_list(L):
-    # only the empty element list is inside the contract's domain: the loop then runs zero times
-    return z3.And(M.is_Ref(L.v("elems")), M.llen(L.v("elems")) == L.i)
+    """the texts collected so far are, one per element and in order, expressions that evaluate to `...` for an
+    ellipsis and to the member otherwise"""
+    elems = L.v("elems")
+    E = S.prop(L.v("schema"), "elements")
+    j = z3.Int("rlj")
+    return z3.And(M.is_Ref(elems), M.llen(elems) == L.i,
+                  z3.ForAll([j], z3.Implies(z3.And(0 <= j, j < L.i),
+                                            z3.And(M.is_StrV(M.lat(elems, j)),
+                                                   pyval(M.sval(M.lat(elems, j))) == M.lat(E, j))),
+                            patterns=[M.lat(elems, j)]))
